@@ -253,7 +253,8 @@ ssrb_case(Ctx& ctx)
       {
         const int eff = max_in < 0 ? max_seg : max_in;
         if (nseg / 2 > eff)
-          continue; // not legal: no complete output segment (see the probe below)
+          continue; // not legal: no complete output segment ("max_in_segment_num_to_process is too small. No output segments");
+                    // whether the library really rejects these is outside C15 and is not probed
         for (int nviews : vg::divisors(nv_in))
           for (int trim : trims)
             for (int ntof : ntofs)
@@ -272,21 +273,6 @@ ssrb_case(Ctx& ctx)
     todo.push_back(fam_b[i]);
   for (size_t i = budget / 2; i < fam_a.size() && todo.size() < budget; ++i)
     todo.push_back(fam_a[i]);
-#ifndef NDEBUG
-  // With asserts compiled in, SSRB(ProjDataInfo) with num_tof_bins_to_combine > 1 aborts inside
-  // ProjDataInfo::set_tof_mash_factor (it shrinks tof_bin_boundaries_* with VectorWithOffset::grow, whose assert
-  // forbids shrinking; see the C15 report).  Keep that as a low-rate probe run at the end of the case so that the
-  // remaining configurations of this flavour are still monitored.
-  {
-    const bool probe_tof = rng.coin(0.12);
-    std::vector<Cfg> first, last;
-    for (auto& c : todo)
-      (c.ntof > 1 ? last : first).push_back(c);
-    todo = first;
-    if (probe_tof)
-      todo.insert(todo.end(), last.begin(), last.end());
-  }
-#endif
   ctx.desc.add("configs_legal", static_cast<long>(fam_a.size() + fam_b.size()));
   ctx.desc.add("configs_run", static_cast<long>(todo.size()));
 
@@ -445,30 +431,6 @@ ssrb_case(Ctx& ctx)
       ctx.sub_eval(vf::mix3(c.nseg * 1000 + c.nviews, c.trim * 100 + c.max_in + 50, c.ntof), nontrivial_data);
     }
 
-  // ---- probe: num_segments_to_combine larger than the processed input segment range.  SSRB(ProjDataInfo) states
-  // "max_in_segment_num_to_process %d is too small. No output segments" for this situation, so it has to call error().
-  // (with asserts compiled in, the out-of-range segment index is caught by VectorWithOffset's assert instead)
-  if (rng.coin(0.04))
-    {
-      const int nseg = 2 * max_seg + 3;
-      ctx.heartbeat("ssrb-probe-nseg-exceeds-input");
-      bool threw = false;
-      try
-        {
-          shared_ptr<ProjDataInfo> p(SSRB(*in_pdi, nseg, 1, 0, -1, 1));
-        }
-      catch (const std::exception&)
-        {
-          threw = true;
-        }
-      ctx.count("ssrb_probe_nseg_exceeds_input");
-      if (!threw)
-        {
-          ctx.violation("ssrb-info-accepts-num-segments-to-combine-exceeding-input-segments",
-                        vf::fmt("input max segment %d, num_segments_to_combine %d accepted without error()", max_seg, nseg));
-          return;
-        }
-    }
   ctx.nontrivial = nontrivial_data && ctx.obs["ssrb_configs"] > 0;
 }
 
@@ -621,23 +583,7 @@ zoom_case(Ctx& ctx)
   // ---- mode
   //  general: full 3-D overloads; two-step = (x,y) then z
   //  xy     : zoom_x == zoom_y, no change in z: the xy-only overloads against the 3-D ones
-  int mode = rng.coin(0.62) ? 0 : 1;
-  bool probe_identity = false, probe_minz = false;
-  {
-    const double u = rng.u01();
-    if (u < 0.02)
-      {
-        mode = 1;
-        probe_identity = true;
-      }
-#ifndef NDEBUG
-    else if (u < 0.03)
-      {
-        mode = 1;
-        probe_minz = true;
-      }
-#endif
-  }
+  const int mode = rng.coin(0.62) ? 0 : 1;
   // ---- input image
   int n[3], mn[3];
   float vs[3], org[3];
@@ -645,9 +591,8 @@ zoom_case(Ctx& ctx)
   n[1] = static_cast<int>(rng.range(3, ctx.thorough() ? 18 : 12));
   n[2] = static_cast<int>(rng.range(3, ctx.thorough() ? 18 : 12));
   const bool std_range = rng.coin(0.65);
-  mn[0] = (mode == 1 || rng.coin(0.8)) ? 0 : static_cast<int>(rng.range(-3, 3));
-  if (probe_minz)
-    mn[0] = rng.coin() ? static_cast<int>(rng.range(1, 3)) : static_cast<int>(rng.range(-3, -1));
+  // (the z index range of the input need not start at 0; the result's always does)
+  mn[0] = rng.coin(0.8) ? 0 : static_cast<int>(rng.range(-3, 3));
   mn[1] = std_range ? -(n[1] / 2) : static_cast<int>(rng.range(-n[1], 3));
   mn[2] = std_range ? -(n[2] / 2) : static_cast<int>(rng.range(-n[2], 3));
   const bool iso = rng.coin(0.3);
@@ -716,13 +661,6 @@ zoom_case(Ctx& ctx)
     }
   else if (zm[1] == zm[2] && rng.coin(0.7))
     ns[1] = ns[2] = want_cover ? std::max(ns[1], ns[2]) : ns[2]; // lets the two-step check start with the xy-only overload
-  if (probe_identity)
-    {
-      // identity parameters for the xy-only overload on an image whose y-size / ranges differ from the requested ones
-      zm[1] = zm[2] = 1.f;
-      off[1] = off[2] = 0.f;
-      ns[1] = ns[2] = n[2];
-    }
   {
     vf::Desc d;
     d.add("n_zyx", std::vector<int>{ n[0], n[1], n[2] }).add("min_zyx", std::vector<int>{ mn[0], mn[1], mn[2] });
@@ -733,7 +671,6 @@ zoom_case(Ctx& ctx)
     ctx.desc.add("mode", mode == 0 ? "general" : "xy").add("option", optname(opt));
     ctx.desc.add("zooms_zyx", std::vector<float>{ zm[0], zm[1], zm[2] }).add("offsets_zyx", std::vector<float>{ off[0], off[1], off[2] });
     ctx.desc.add("new_sizes_zyx", std::vector<int>{ ns[0], ns[1], ns[2] });
-    ctx.desc.add("probe_identity", probe_identity).add("probe_minz", probe_minz);
   }
   const Stats st_in = stats_of(in);
   const Geo gin = geo_of(in);
@@ -742,67 +679,6 @@ zoom_case(Ctx& ctx)
   const Coordinate3D<int> new_sizes(ns[0], ns[1], ns[2]);
   ctx.count(std::string("zoom_cases_") + optname(opt));
   ctx.count(mode == 0 ? "zoom_cases_general" : "zoom_cases_xy");
-
-  // ================= probes for the xy-only overload =================
-  if (probe_minz)
-    {
-      // the xy-only overload builds an output with z range 0..nz-1 and then writes planes min_z..max_z of the INPUT
-      ctx.heartbeat("zoom-xy-overload-input-min-z-nonzero");
-      ctx.count("zoom_probe_minz");
-      const Img r = zoom_image(in, zm[2], off[2], off[1], ns[2], mkopt(opt));
-      const Img r3 = zoom_image(in, zooms, offsets, new_sizes, mkopt(opt));
-      std::string w;
-      if (!same_range(geo_of(r), geo_of(r3)))
-        ctx.violation("zoom-xy-overload-input-min-z-nonzero:range-differs-from-3d-overload", geos(geo_of(r)) + " vs " + geos(geo_of(r3)));
-      return;
-    }
-  if (probe_identity)
-    {
-      ctx.heartbeat("zoom-xy-overload-identity-shortcut");
-      ctx.count("zoom_probe_identity");
-      const Img r = zoom_image(in, 1.f, 0.f, 0.f, ns[2], mkopt(opt));
-      const Geo g = geo_of(r);
-      if (g.mx[1] - g.mn[1] + 1 != ns[2] || g.mx[2] - g.mn[2] + 1 != ns[2])
-        {
-          ctx.violation("zoom-xy-overload-identity-shortcut-ignores-new-size",
-                        vf::fmt("zoom 1, offsets 0, new_size %d on input ", ns[2]) + geos(gin) + " returns " + geos(g));
-          return;
-        }
-      // sizes as requested: values must be the input's, at the same physical places
-      const Img r3 = zoom_image(in, zooms, offsets, new_sizes, mkopt(opt));
-      std::string w;
-      // (index ranges may legitimately differ: compare at equal physical positions)
-      const Geo g3 = geo_of(r3);
-      bool ok = true;
-      int d[3];
-      for (int a = 0; a < 3 && ok; ++a)
-        {
-          d[a] = g3.mn[a] - g.mn[a];
-          const double cba = 64 * EPS32
-                             * (std::fabs(g.org[a]) + std::fabs(g3.org[a])
-                                + (std::abs(g.mn[a]) + std::abs(g.mx[a]) + std::abs(g3.mn[a]) + std::abs(g3.mx[a]) + 2.0) * g.vs[a]);
-          if (g3.mx[a] - g3.mn[a] != g.mx[a] - g.mn[a] || std::fabs(phys(r, a, g.mn[a]) - phys(r3, a, g3.mn[a])) > cba
-              || std::fabs(static_cast<double>(g.vs[a]) - g3.vs[a]) > 4 * EPS32 * g.vs[a])
-            {
-              ok = false;
-              w = vf::fmt("axis %d: size/position/voxel size differ", a);
-            }
-        }
-      const double idband = vf::band32(8, st_in.max_abs) + 64 * EPS32 * 64 * st_in.max_abs;
-      for (int z = g.mn[0]; z <= g.mx[0] && ok; ++z)
-        for (int y = g.mn[1]; y <= g.mx[1] && ok; ++y)
-          for (int x = g.mn[2]; x <= g.mx[2] && ok; ++x)
-            if (std::fabs(static_cast<double>(r[z][y][x]) - r3[z + d[0]][y + d[1]][x + d[2]]) > idband)
-              {
-                ok = false;
-                w = vf::fmt("voxel (z%d,y%d,x%d): %.9g vs %.9g", z, y, x, static_cast<double>(r[z][y][x]),
-                            static_cast<double>(r3[z + d[0]][y + d[1]][x + d[2]]));
-              }
-      if (!ok)
-        ctx.violation("zoom-xy-overload-identity-differs-from-3d-overload", geos(g) + " vs " + geos(g3) + " " + w);
-      ctx.nontrivial = st_in.mx > st_in.mn && st_in.n >= 8;
-      return;
-    }
 
   // ================= one call =================
   ctx.heartbeat("zoom-one-call");
@@ -1080,16 +956,30 @@ zoom_case(Ctx& ctx)
   if (mode == 1)
     {
       // (c) xy-only overload == 3-D overload with zoom_z = 1, no z offset, same number of planes
-      ctx.heartbeat("zoom-xy-overload");
+      ctx.heartbeat(gin.mn[0] == 0 ? "zoom-xy-overload" : "zoom-xy-overload-input-min-z-nonzero");
       const Img rxy = zoom_image(in, zm[2], off[2], off[1], ns[2], mkopt(opt));
       std::string w;
-      if (!geo_close(geo_of(rxy), w) || !images_close(rxy, r1, comp_band, w))
+      // zoom.cxx returns the input itself when zoom == 1, offsets == 0 and new_size == x-size ("nothing to do").  Which grid
+      // (index ranges, y-size) the result then has is not something C15 talks about: counts and positions are trivially
+      // conserved and every composition through it gives the one-call result.  The comparison with the 3-D overload needs
+      // equal grids, so it is made only when that shortcut leaves the grid as the 3-D overload would make it.
+      const bool identity_shortcut = zm[2] == 1.f && off[1] == 0.f && off[2] == 0.f && ns[2] == n[2];
+      if (identity_shortcut && !same_range(gin, g1))
+        ctx.count("zoom_xy_identity_shortcut_other_grid");
+      else
         {
-          ctx.violation(std::string("zoom-xy-overload-differs-from-3d-overload:") + optname(opt), geos(geo_of(rxy)) + " vs " + geos(g1) + " " + w);
-          return;
+          if (!geo_close(geo_of(rxy), w) || !images_close(rxy, r1, comp_band, w))
+            {
+              ctx.violation(std::string("zoom-xy-overload-differs-from-3d-overload:") + optname(opt)
+                                + (gin.mn[0] != 0 ? ":input-min-z-nonzero" : ""),
+                            geos(geo_of(rxy)) + " vs " + geos(g1) + " " + w);
+              return;
+            }
+          ctx.count("zoom_composition_checks");
+          ctx.count("zoom_comp_xy_overload");
+          if (gin.mn[0] != 0)
+            ctx.count("zoom_comp_xy_overload_min_z_nonzero");
         }
-      ctx.count("zoom_composition_checks");
-      ctx.count("zoom_comp_xy_overload");
       // and its in-place form
       Img ip = in;
       zoom_image_in_place(ip, zm[2], off[2], off[1], ns[2], mkopt(opt));
@@ -1104,7 +994,7 @@ zoom_case(Ctx& ctx)
     {
       // (d) two steps: (x,y) first, then z
       ctx.heartbeat("zoom-two-step");
-      const bool use_xy_overload = zm[1] == zm[2] && ns[1] == ns[2] && gin.mn[0] == 0 && rng.coin(0.6);
+      const bool use_xy_overload = zm[1] == zm[2] && ns[1] == ns[2] && rng.coin(0.6);
       Img step1 = use_xy_overload ? zoom_image(in, zm[2], off[2], off[1], ns[2], mkopt(opt))
                                   : zoom_image(in, CartesianCoordinate3D<float>(1.f, zm[1], zm[2]), CartesianCoordinate3D<float>(0.f, off[1], off[2]),
                                                Coordinate3D<int>(n[0], ns[1], ns[2]), mkopt(opt));
